@@ -64,6 +64,12 @@ pub struct Monitor {
     to_client: VecDeque<Pk>,
     /// replies the client owes for inbound flows
     replies: VecDeque<Pk>,
+    /// topic aliases the broker established on this connection (alias -> second topic?)
+    in_aliases: std::collections::BTreeMap<u16, bool>,
+    /// inbound publishes that used an alias the broker never established
+    lenient_tags: Vec<u32>,
+    /// replies the client may or may not write (for those publishes)
+    optional_replies: Vec<Pk>,
     inbound_q2: Vec<u16>,
     inbound_unacked: VecDeque<Pk>,
     outs: Vec<(String, u16)>,
@@ -84,6 +90,8 @@ pub struct Monitor {
     broker_silent_since: Option<u64>,
     errors: Vec<(String, u64)>,
     reconnect_offered_ms: Option<u64>,
+    /// the broker has written nothing since that transport was offered
+    silent_handshake: bool,
     healthy: bool,
     completed_rels: Vec<u16>,
     expect_unsolicited: bool,
@@ -128,6 +136,9 @@ impl Monitor {
             broker_pubs: vec![],
             to_client: VecDeque::new(),
             replies: VecDeque::new(),
+            in_aliases: Default::default(),
+            lenient_tags: vec![],
+            optional_replies: vec![],
             inbound_q2: vec![],
             inbound_unacked: VecDeque::new(),
             outs: vec![],
@@ -146,6 +157,7 @@ impl Monitor {
             broker_silent_since: None,
             errors: vec![],
             reconnect_offered_ms: None,
+            silent_handshake: false,
             healthy: false,
             completed_rels: vec![],
             expect_unsolicited: false,
@@ -215,6 +227,8 @@ impl Monitor {
         self.broker_pubs.clear();
         self.to_client.clear();
         self.replies.clear();
+        self.in_aliases.clear();
+        self.optional_replies.clear();
         self.inbound_q2.clear();
         self.inbound_unacked.clear();
         self.connect_seen_unanswered = false;
@@ -230,7 +244,35 @@ impl Monitor {
 
     /// the broker wrote `pk` to the client
     pub fn on_broker_sent(&mut self, pk: &Pk) {
-        self.to_client.push_back(pk.clone());
+        // what poll() has to surface: an MQTT 5 client resolves topic aliases (3.3.2.3.4)
+        let mut expected = pk.clone();
+        let mut alias_error = false;
+        if let Pk::Publish { alias: Some(a), topic_empty, topic2, tag, .. } = &mut expected {
+            if *topic_empty {
+                match self.in_aliases.get(a) {
+                    Some(t2) => {
+                        *topic_empty = false;
+                        *topic2 = *t2;
+                    }
+                    None => {
+                        // protocol error of the broker: what the client surfaces and answers
+                        // is not constrained, its announcements still are
+                        alias_error = true;
+                        self.lenient_tags.push(*tag);
+                    }
+                }
+            } else {
+                self.in_aliases.insert(*a, *topic2);
+            }
+        }
+        self.to_client.push_back(expected);
+        self.silent_handshake = false;
+        if alias_error {
+            if let Pk::Publish { qos: 1, pkid, .. } = pk {
+                self.optional_replies.push(Pk::PubAck(*pkid, 0));
+            }
+            return;
+        }
         match pk {
             Pk::ConnAck { sp, code, recv_max } => {
                 if *code == 0 {
@@ -434,6 +476,10 @@ impl Monitor {
                         Some(e) if e == pk => {
                             self.replies.pop_front();
                         }
+                        _ if self.optional_replies.contains(pk) => {
+                            let p = self.optional_replies.iter().position(|e| e == pk).unwrap();
+                            self.optional_replies.remove(p);
+                        }
                         other => {
                             if !self.manual {
                                 let d = format!("client wrote {pk:?}; the reply owed next is {other:?}");
@@ -522,8 +568,15 @@ impl Monitor {
                 if let Pk::PingResp = pk {
                     self.ping_outstanding_since = None;
                 }
+                // the topic of a publish that used an alias nobody established is not constrained
+                let lenient_match = |e: &Pk, lenient: &[u32]| match (e, pk) {
+                    (Pk::Publish { tag: a, qos: q1, pkid: p1, .. }, Pk::Publish { tag: b, qos: q2, pkid: p2, .. }) => {
+                        a == b && q1 == q2 && p1 == p2 && lenient.contains(a)
+                    }
+                    _ => false,
+                };
                 match self.to_client.front() {
-                    Some(e) if e == pk => {
+                    Some(e) if e == pk || lenient_match(e, &self.lenient_tags) => {
                         self.to_client.pop_front();
                     }
                     _ if self.stale_in.front() == Some(pk) => {
@@ -612,6 +665,36 @@ impl Monitor {
         }
         if self.is("C18") {
             self.check_keepalive(held, now);
+            self.check_connect_timeout(now);
+        }
+    }
+
+    /// C18, last clause: a handshake the broker does not complete is reported as a timeout
+    /// once the configured connection timeout has passed (and not earlier)
+    fn check_connect_timeout(&mut self, now: u64) {
+        let Some(t0) = self.reconnect_offered_ms else { return };
+        if !self.silent_handshake {
+            // the broker answered (in time or late): no claim
+            return;
+        }
+        match self.errors.last().cloned() {
+            None => {
+                if now > t0 + self.conn_timeout_ms {
+                    let d = format!("transport offered at {t0}ms, no CONNACK, still no error at {now}ms (connection timeout {}ms)", self.conn_timeout_ms);
+                    self.v("connect_timeout_missing", d);
+                }
+            }
+            Some((e, at)) => {
+                let is_timeout = e.to_lowercase().contains("timeout") || e.to_lowercase().contains("elapsed");
+                if is_timeout && at < t0 + self.conn_timeout_ms {
+                    let d = format!("timeout {e:?} reported at {at}ms, transport offered at {t0}ms, connection timeout {}ms", self.conn_timeout_ms);
+                    self.v("connect_timeout_early", d);
+                }
+                if !is_timeout {
+                    let d = format!("handshake left unanswered by the broker ended with {e:?} at {at}ms instead of a timeout");
+                    self.v("connect_timeout_wrong_error", d);
+                }
+            }
         }
     }
 
@@ -785,6 +868,8 @@ impl Monitor {
         crate::vcore::fp64(&(
             (&self.ledger, &self.sent, &self.broker_pubs),
             (&self.to_client, &self.replies, &self.stale_in),
+            (&self.in_aliases, &self.lenient_tags, &self.optional_replies),
+            (self.reconnect_offered_ms, self.silent_handshake, self.errors.len()),
             &self.carry,
             self.resumed,
             self.acks_in_order,
@@ -841,6 +926,7 @@ impl Monitor {
     }
     pub fn reconnect_offered(&mut self, now: u64) {
         self.reconnect_offered_ms = Some(now);
+        self.silent_handshake = true;
     }
     pub fn conn_timeout_ms(&self) -> u64 {
         self.conn_timeout_ms
